@@ -67,7 +67,7 @@ def impl_set(t, ups, lit):
             key = lib_json(lib.canon_micheline(V.norm_out(t, x.to_micheline_value(mode='readable'))))
             items.append(universe.get(key, ('str', '<<foreign value>>')))
     it2 = fresh_interpreter()
-    lit_code = f'PUSH (set {ts}) {{ ' + ' ; '.join(V.elt_src(v) for v in lit) + ' }'
+    lit_code = f'PUSH (set {ts}) {{ ' + ' ; '.join(V.literal_elt_srcs(t, lit)) + ' }'
     ok2, r2 = lib.call(it2.execute, lit_code)
     acc = bool(ok2 and r2.error is None)
     if acc:
@@ -305,10 +305,11 @@ def run(ctx: lib.Ctx) -> None:
     # ---------------- sets: order, deduplication, literals
     scases, smeta = [], []
     pending_unit = ctx.finding('unit-unhashable')
-    for _ in range(n_sets):
-        t = V.gen_type(rng, rng.randrange(0, depth), allow_never=False)
+    directed_lits = list(V.notation_duplicates(rng))
+    for sidx in range(-len(directed_lits), n_sets):
+        t = V.gen_type(rng, rng.randrange(0, depth), allow_never=False) if sidx >= 0 else directed_lits[sidx][0]
         k = rng.randrange(2, 8)
-        pool = [V.gen_value(rng, t)]
+        pool = [V.gen_value(rng, t)] if sidx >= 0 else [directed_lits[sidx][1][0]]
         if t[0] in ('address', 'key', 'key_hash', 'signature') and rng.random() < 0.7:
             from c14 import mixed_kinds      # kinds / curves / notations mixed in one set (text order != Michelson order)
             pool = mixed_kinds(rng, t, min(k, 6)) or pool
@@ -333,6 +334,10 @@ def run(ctx: lib.Ctx) -> None:
         elif lk < 0.5:
             rng.shuffle(lit)
             lit_kind = 'shuffled'
+        if sidx < 0:
+            lit, lit_kind = list(directed_lits[sidx][1]), 'duplicate-other-notation'
+        elif lit_kind == 'duplicate' and V.alt_micheline(t, lit[i]) is not None:
+            lit_kind = 'duplicate-other-notation'
         items, acc, code = impl_set(t, ups, lit)
         # the property's expectation
         cur = []
@@ -369,7 +374,7 @@ def run(ctx: lib.Ctx) -> None:
         if reported < 3:
             reported += 1
             what = ('set is not sorted/deduplicated by the Tezos order' if not ok_items else
-                    f'set literal {"accepted" if acc is True else "rejected"} although it is {"strictly increasing" if want_acc else "unsorted or has duplicates"}')
+                    f'set literal {"rejected" if acc is False else "accepted"} although it is {"strictly increasing" if want_acc else "unsorted or has duplicates"}')
             ctx.violation(what, {'type': V.type_src(t), 'code': code,
                                  'observed_items': [V.value_src(x) for x in items] if isinstance(items, list) else items,
                                  'expected_items': [V.value_src(x) for x in want_items], 'literal_accepted': acc, 'literal_should_be_accepted': want_acc,
